@@ -361,6 +361,26 @@ fn note_credentials(s: &mut Vec<(String, Vec<u8>)>, c: &Credentials) {
     s.push(("debug:SecretKey".to_owned(), format!("{:?}\n{:#?}", c.secret_key, c.secret_key).into_bytes()));
     s.push(("json:SecretKey".to_owned(), serde_json::to_vec(&c.secret_key).unwrap_or_default()));
     s.push(("json-pretty:SecretKey".to_owned(), serde_json::to_vec_pretty(&c.secret_key).unwrap_or_default()));
+    // reading a key (a provider that loads its table with serde): whatever the outcome - a value or an error - its renderings
+    // do not disclose the text that was read; unusual but legal keys included (line end, surrounding blanks, control byte)
+    {
+        let raw = c.secret_key.expose().to_owned();
+        for (tag, text) in [("plain", raw.clone()), ("lf", format!("{raw}\n")), ("blank", format!(" {raw} ")), ("ctl", format!("{raw}\u{1}")), ("tab", format!("\t{raw}"))] {
+            let json = serde_json::to_string(&text).unwrap_or_default();
+            let out = match serde_json::from_str::<s3s::auth::SecretKey>(&json) {
+                Ok(k) => format!("{k:?} {k:#?} {}", serde_json::to_string(&k).unwrap_or_default()),
+                Err(e) => format!("{e} / {e:?}"),
+            };
+            s.push((format!("deserialize:SecretKey.{tag}"), out.into_bytes()));
+            // nested: a record with the key as a member
+            let rec = format!("{{\"access_key\":\"AK\",\"secret_key\":{json}}}");
+            let out = match serde_json::from_str::<std::collections::BTreeMap<String, s3s::auth::SecretKey>>(&rec) {
+                Ok(m) => format!("{m:?}"),
+                Err(e) => format!("{e} / {e:?}"),
+            };
+            s.push((format!("deserialize:map-of-SecretKey.{tag}"), out.into_bytes()));
+        }
+    }
     s.push(("serde-binary:SecretKey".to_owned(), binser::to_vec(&c.secret_key)));
     // inside containers, as a map value and behind an Option (what a config / session store would serialise)
     let held: (Option<&SecretKey>, Vec<&SecretKey>, std::collections::BTreeMap<&str, &SecretKey>) =
